@@ -158,6 +158,9 @@ def _add_histories(scs, rng, frac=0.4):
     for sc in scs:
         if "pre" not in sc and rng.random() < frac:
             sc["pre"] = [rng.choice(PRE_OPS) for _ in range(rng.randint(1, 4))]
+        if "variant" not in sc:
+            # autoconvert on (default) / off with user-placed PIT layers / exclusion by type instead of by name
+            sc["variant"] = rng.choices(["auto", "manual", "types"], weights=[6, 3, 1])[0]
 
 
 def _life_base(which, rng, pid):
@@ -191,7 +194,7 @@ def _life_base(which, rng, pid):
 
 
 def _key(sc):
-    return {k: sc.get(k) for k in ("arch", "fold", "alive", "alpha", "tm", "tmraw", "costs", "pre")}
+    return {k: sc.get(k) for k in ("arch", "fold", "alive", "alpha", "tm", "tmraw", "costs", "pre", "variant")}
 
 
 def _nontrivial(sc) -> bool:
